@@ -1,17 +1,334 @@
-//! Coq case legs (filled in below).
+//! Coq case legs: what the implementation answers, printed as Coq terms for C11/Corr.v.
+//!  cw_NNN.v  format_leading_comment(content, cur_indent, max_line_width) -> output   (hook)
+//!  lb_NNN.v  the LineBuilder tree handed to `build` with (max_line_length, tab_size) -> output  (hook)
+use std::collections::BTreeSet;
+use std::fmt::Write as _;
+use std::panic::AssertUnwindSafe;
+use std::time::Duration;
+
+use cairo_lang_formatter::formatter_impl::verif_hook;
+use cairo_lang_formatter::get_formatted_file;
+use cairo_lang_parser::utils::SimpleParserDatabase;
 use serde_json::{Value, json};
 use vcommon::Rng;
 
-pub fn lb_case(_arg: &str, _text: &str) -> Value {
-    json!({})
+use crate::oracle::Cfg;
+use crate::pool::{self, Outcome};
+
+/// A Coq list literal; long lists are written as appended chunks (the list notation nests).
+fn coq_list_chunked(items: &[String]) -> String {
+    if items.len() <= 200 {
+        return format!("[{}]", items.join(";"));
+    }
+    let parts: Vec<String> = items.chunks(200).map(|c| format!("[{}]", c.join(";"))).collect();
+    format!("({})", parts.join(" ++ "))
+}
+
+fn coq_str(s: &str) -> String {
+    let items: Vec<String> = s.chars().map(|c| (c as u32).to_string()).collect();
+    coq_list_chunked(&items)
+}
+
+fn note_alnum(s: &str, tbl: &mut BTreeSet<u32>) {
+    for c in s.chars() {
+        if c.is_alphanumeric() {
+            tbl.insert(c as u32);
+        }
+    }
+}
+
+fn coq_tbl(tbl: &BTreeSet<u32>) -> String {
+    format!("[{}]", tbl.iter().map(|c| c.to_string()).collect::<Vec<_>>().join(";"))
+}
+
+fn b(v: &Value) -> &'static str {
+    if v.as_bool().unwrap_or(false) { "true" } else { "false" }
+}
+
+fn coq_components(v: &Value, tbl: &mut BTreeSet<u32>, n_comp: &mut usize) -> String {
+    let mut parts = vec![];
+    for c in v.as_array().unwrap() {
+        *n_comp += 1;
+        let tag = c[0].as_str().unwrap();
+        parts.push(match tag {
+            "T" => format!("T {}", coq_str(c[1].as_str().unwrap())),
+            "Z" => {
+                let bld = &c[2];
+                format!(
+                    "Z {} {} {} {}",
+                    coq_components(&bld["children"], tbl, n_comp),
+                    b(&bld["is_open"]),
+                    coq_components(&bld["pending"], tbl, n_comp),
+                    c[1].as_u64().unwrap()
+                )
+            }
+            "S" => "S_".to_string(),
+            "I" => format!("I {}", c[1].as_u64().unwrap()),
+            "B" => format!(
+                "B {} {} {} {} {} {} {}",
+                b(&c[1]),
+                c[2].as_u64().unwrap(),
+                c[3].as_u64().unwrap(),
+                b(&c[4]),
+                b(&c[5]),
+                b(&c[6]),
+                b(&c[7])
+            ),
+            "C" => {
+                let s = c[1].as_str().unwrap();
+                note_alnum(s, tbl);
+                format!("C {} {}", coq_str(s), b(&c[2]))
+            }
+            _ => panic!("unknown component tag"),
+        });
+    }
+    coq_list_chunked(&parts)
+}
+
+/// Worker side of the lb leg: formats `text` under `cfg` through the hook; answers with the tree
+/// (JSON), the string built from it and whether it equals get_formatted_file's answer.
+pub fn lb_case(arg: &str, text: &str) -> Value {
+    let cfg = Cfg(arg.parse::<u32>().unwrap_or(0));
+    let r = vcommon::catch(AssertUnwindSafe(|| {
+        let db = SimpleParserDatabase::default();
+        let (root, diags) = db.parse_virtual_with_diagnostics(text);
+        if !diags.get_all().is_empty() {
+            return None;
+        }
+        let (tree, built) = verif_hook::line_tree_and_output(&db, &root, cfg.to_config());
+        let direct = get_formatted_file(&db, &root, cfg.to_config());
+        Some((tree, built, direct))
+    }));
+    match r {
+        Ok(Some((tree, built, direct))) => json!({"ok": true, "tree": tree, "built": built, "same": built == direct}),
+        Ok(None) => json!({"ok": false}),
+        Err(m) => json!({"ok": false, "panic": format!("{} @ {}", m, vcommon::last_panic_location())}),
+    }
+}
+
+/// Comment blocks (consecutive `//` lines joined by '\n', as push_comment aggregates them).
+fn corpus_comment_blocks(text: &str, out: &mut Vec<String>) {
+    let mut cur: Vec<&str> = vec![];
+    for line in text.lines() {
+        let t = line.trim_start();
+        if t.starts_with("//") {
+            cur.push(line);
+        } else if !cur.is_empty() {
+            out.push(cur.join("\n"));
+            cur.clear();
+        }
+    }
+    if !cur.is_empty() {
+        out.push(cur.join("\n"));
+    }
 }
 
 pub fn write_cases(
-    _outdir: &std::path::Path,
-    _thorough: bool,
-    _corpus: &[(String, String)],
-    _rng: &mut Rng,
-    _n_workers: usize,
+    outdir: &std::path::Path,
+    thorough: bool,
+    corpus: &[(String, String)],
+    rng: &mut Rng,
+    n_workers: usize,
 ) -> Value {
-    json!({})
+    // ---------------- comment leg ----------------
+    let mut cw: Vec<(String, usize, usize)> = vec![];
+    // corners
+    for (c, i, w) in [
+        ("", 0usize, 100usize),
+        ("//", 0, 0),
+        ("// ", 4, 2),
+        ("// aaaa bbbb ccc  https://example.org/x", 4, 20),
+        ("//aaaaaaaaaaaaaaa /bbbbbbbbbbbb", 0, 20),
+        ("//a !b", 0, 4),
+        ("/// a\r\n/// b\r", 2, 7),
+        ("// a,\n// b", 0, 5),
+        ("// long long long,\n// next line", 0, 12),
+        ("// x\n\n// y", 0, 100),
+        ("no prefix at all here", 3, 9),
+        ("//\ttab\tseparated words", 0, 8),
+        ("// é日本語 wörd ünï", 1, 9),
+        ("////// many slashes and words", 90, 20),
+        ("//! inner doc, continued\n//! here", 0, 14),
+    ] {
+        cw.push((c.to_string(), i, w));
+    }
+    let mut blocks = vec![];
+    for (_, t) in corpus.iter() {
+        if blocks.len() > 40_000 {
+            break;
+        }
+        corpus_comment_blocks(t, &mut blocks);
+    }
+    let n_cw = if thorough { 9_000 } else { 1_500 };
+    let widths = [0usize, 1, 2, 3, 5, 8, 12, 20, 40, 60, 100, 120];
+    while cw.len() < n_cw {
+        let k = cw.len();
+        let content = if k % 3 == 0 && !blocks.is_empty() {
+            // a real comment block, possibly cut to keep cases small
+            let b = rng.pick(&blocks).clone();
+            b.lines().take(1 + rng.below(6) as usize).collect::<Vec<_>>().join("\n")
+        } else {
+            let n = 1 + rng.below(4);
+            let long = rng.below(3) == 0;
+            (0..n)
+                .map(|_| {
+                    let pad = " ".repeat(rng.below(3) as usize * 4);
+                    let mut c = crate::mutate::gen_comment(rng, long);
+                    if c.len() > 260 {
+                        let mut cut = 260;
+                        while !c.is_char_boundary(cut) {
+                            cut -= 1;
+                        }
+                        c.truncate(cut);
+                    }
+                    format!("{pad}{c}")
+                })
+                .collect::<Vec<_>>()
+                .join(if rng.below(9) == 0 { "\r\n" } else { "\n" })
+        };
+        let w = if rng.bool() { *rng.pick(&widths) } else { rng.below(130) as usize };
+        let i = match rng.below(4) {
+            0 => 0,
+            1 => 4 * rng.below(6) as usize,
+            2 => rng.below(w as u64 + 3) as usize,
+            _ => rng.below(140) as usize,
+        };
+        cw.push((content, i, w));
+    }
+    let mut n_cw_written = 0;
+    let mut n_cw_changed = 0;
+    let mut n_cw_broken = 0;
+    let mut cw_panics = vec![];
+    let mut distinct_cw = BTreeSet::new();
+    for (si, chunk) in cw.chunks(300).enumerate() {
+        let mut tbl = BTreeSet::new();
+        let mut items = vec![];
+        for (c, i, w) in chunk {
+            let r = vcommon::catch(AssertUnwindSafe(|| verif_hook::format_leading_comment(c, *i, *w)));
+            match r {
+                Ok(out) => {
+                    note_alnum(c, &mut tbl);
+                    if out != *c {
+                        n_cw_changed += 1;
+                    }
+                    if out.lines().count() > c.lines().count() {
+                        n_cw_broken += 1;
+                    }
+                    distinct_cw.insert((c.clone(), *i, *w));
+                    items.push(format!("({}, {}, {}, {})", coq_str(c), i, w, coq_str(&out)));
+                    n_cw_written += 1;
+                }
+                Err(m) => cw_panics.push(json!({"content": c, "indent": i, "width": w, "panic": m})),
+            }
+        }
+        let mut f = String::new();
+        f.push_str("From C11 Require Import Corr.\nOpen Scope N_scope.\n");
+        let _ = writeln!(f, "Definition tbl : list N := {}.", coq_tbl(&tbl));
+        for (k, it) in items.iter().enumerate() {
+            let _ = writeln!(f, "Definition k{k} : str * N * N * str := {it}.");
+        }
+        let names: Vec<String> = (0..items.len()).map(|k| format!("k{k}")).collect();
+        let _ = writeln!(f, "Definition cases : list (str * N * N * str) := {}.", coq_list_chunked(&names));
+        f.push_str("Definition bad := Eval vm_compute in check_cw tbl cases.\nPrint bad.\n");
+        std::fs::write(outdir.join(format!("cw_{si:03}.v")), f).unwrap();
+    }
+
+    // ---------------- line-breaker leg ----------------
+    // small inputs: corpus files and snippets below 2.5 KB, their mutants, generated programs
+    let mut inputs: Vec<(String, String)> = vec![];
+    let small: Vec<&(String, String)> = corpus.iter().filter(|(_, t)| t.len() < 1600 && t.len() > 20).collect();
+    let n_lb = if thorough { 1500 } else { 260 };
+    let mut k = 0usize;
+    while inputs.len() < n_lb && k < n_lb * 20 {
+        k += 1;
+        match k % 4 {
+            0 | 1 if !small.is_empty() => {
+                let (p, t) = rng.pick(&small);
+                if k % 8 < 4 {
+                    inputs.push((p.clone(), t.clone()));
+                } else if let Some(ps) = crate::mutate::pieces(t) {
+                    if ps.len() > 3 {
+                        let m = crate::mutate::MUTATIONS[(k / 8) % crate::mutate::MUTATIONS.len()];
+                        let mt = crate::mutate::mutate(&ps, m, rng);
+                        if mt.len() < 2400 {
+                            inputs.push((format!("{p} [{m}]"), mt));
+                        }
+                    }
+                }
+            }
+            _ => {
+                let t = crate::progen::Gen::new(rng).program();
+                if t.len() < 1800 {
+                    inputs.push((format!("gen-lb#{k}"), t));
+                }
+            }
+        }
+    }
+    let cfgs: Vec<Cfg> = inputs
+        .iter()
+        .enumerate()
+        .map(|(i, _)| if i % 5 == 0 { Cfg::default_cfg() } else { Cfg::from_index(rng.below(Cfg::N as u64) as u32) })
+        .collect();
+    let reqs: Vec<(String, &str)> =
+        inputs.iter().zip(cfgs.iter()).map(|((_, t), c)| (format!("lb:{}", c.0), t.as_str())).collect();
+    let outcomes = pool::run_all(&reqs, n_workers, Duration::from_secs(30));
+    let mut lb_items: Vec<(String, BTreeSet<u32>)> = vec![];
+    let mut n_lb_components = 0usize;
+    let mut n_lb_multi = 0usize;
+    let mut hook_mismatch = vec![];
+    let mut lb_problems = vec![];
+    for (((origin, text), cfg), o) in inputs.iter().zip(cfgs.iter()).zip(outcomes.iter()) {
+        match o {
+            Outcome::Answer(v) if v["ok"].as_bool() == Some(true) => {
+                if v["same"].as_bool() != Some(true) {
+                    hook_mismatch.push(json!({"origin": origin, "cfg_bits": cfg.0, "input": text}));
+                }
+                let tree: Value = serde_json::from_str(v["tree"].as_str().unwrap()).unwrap();
+                let built = v["built"].as_str().unwrap();
+                let mut tbl = BTreeSet::new();
+                let mut n = 0;
+                let ch = coq_components(&tree["children"], &mut tbl, &mut n);
+                let pend = coq_components(&tree["pending"], &mut tbl, &mut n);
+                n_lb_components += n;
+                if built.lines().count() > 3 {
+                    n_lb_multi += 1;
+                }
+                lb_items.push((
+                    format!("(LB {} {} {}, {}, {}, {})", ch, b(&tree["is_open"]), pend, cfg.width(), cfg.tab(), coq_str(built)),
+                    tbl,
+                ));
+            }
+            Outcome::Answer(v) => {
+                if v.get("panic").is_some() {
+                    lb_problems.push(json!({"origin": origin, "cfg_bits": cfg.0, "panic": v["panic"], "input": text}));
+                }
+            }
+            Outcome::Hang(s) => lb_problems.push(json!({"origin": origin, "cfg_bits": cfg.0, "hang_s": s, "input": text})),
+            Outcome::Died(s) => lb_problems.push(json!({"origin": origin, "cfg_bits": cfg.0, "died": s, "input": text})),
+        }
+    }
+    let n_lb_written = lb_items.len();
+    for (si, chunk) in lb_items.chunks(25).enumerate() {
+        let mut tbl = BTreeSet::new();
+        for (_, t) in chunk {
+            tbl.extend(t.iter().copied());
+        }
+        let mut f = String::new();
+        f.push_str("From C11 Require Import Corr.\nOpen Scope N_scope.\n");
+        let _ = writeln!(f, "Definition tbl : list N := {}.", coq_tbl(&tbl));
+        for (k, (it, _)) in chunk.iter().enumerate() {
+            let _ = writeln!(f, "Definition k{k} : builder * N * N * str := {it}.");
+        }
+        let names: Vec<String> = (0..chunk.len()).map(|k| format!("k{k}")).collect();
+        let _ = writeln!(f, "Definition cases : list (builder * N * N * str) := {}.", coq_list_chunked(&names));
+        f.push_str("Definition bad := Eval vm_compute in check_lb tbl cases.\nPrint bad.\n");
+        std::fs::write(outdir.join(format!("lb_{si:03}.v")), f).unwrap();
+    }
+    json!({
+        "cw_cases": n_cw_written, "cw_distinct": distinct_cw.len(), "cw_output_differs": n_cw_changed,
+        "cw_lines_added": n_cw_broken, "cw_panics": cw_panics,
+        "lb_cases": n_lb_written, "lb_inputs": inputs.len(), "lb_components": n_lb_components,
+        "lb_outputs_over_3_lines": n_lb_multi,
+        "lb_hook_vs_get_formatted_file_mismatch": hook_mismatch, "lb_problems": lb_problems,
+    })
 }
